@@ -177,10 +177,16 @@ def r3_lint(run, F):
     seq = []
     for n in walk(bl["hir"]):
         if n.get("k") == "MethodCall" and n.get("name") == "lint":
-            seq.append(("lint:" + (hirq.local_name_of(hirq.unwrap_trivial(n["recv"])) or "?"), n["l"]))
+            # which statements: the head of split_first (tuple position 0) or the rest (position 1), whatever they are called
+            from rules import origins as _or
+            o = _or.origins(bl["hir"], n["recv"], bl.get("params", ()))
+            pos = sorted(k[1] for k in o if k[0] == "tuplepos")
+            seq.append(("lint:" + ("first" if pos == [0] else "statement" if pos == [1] else "?"), n["l"]))
         if n.get("k") == "Assign" and hirq.unwrap_trivial(n["lhs"]).get("name") == "is_first_statement_of_branch":
             cons = [hirq.short(p) for p, _ in hirq.constructs(n["rhs"])]
             seq.append(("set:" + ("None" if cons and all(c.endswith("None") for c in cons) else "derived"), n["l"]))
+        if n.get("k") == "MethodCall" and n.get("name") == "take" and hirq.unwrap_trivial(n["recv"]).get("name") == "is_first_statement_of_branch":
+            seq.append(("set:None", n["l"]))       # Option::take leaves None behind
     names = [x[0] for x in sorted(seq, key=lambda x: x[1])]
     run.ob("R3-LINT-FLAGS", "Block::lint order", names == ["set:derived", "lint:first", "set:None", "lint:statement"], F.where(bl),
            "only the first statement of a branch block may see the flag: %s" % names)
